@@ -24,7 +24,7 @@ def run(ctx):
                         "token-soup grammar: every token is valid in every parse state; only error-free parses are compared leaf by leaf, "
                         "and `has_error` must equal `the reference finds no token somewhere`"]
     ctx.regen()
-    ctx.prove(["TsVerif.C14.Props"], "TsVerif/C14/Audit.lean")
+    ctx.prove(["TsVerif.C14.Props", "TsVerif.C14.Round11"], "TsVerif/C14/Audit.lean")
     driver = ctx.build_driver("tsv-c14")
     explorer = ctx.cargo_bin("c14")
     if not (explorer and os.path.exists(driver)):
